@@ -115,6 +115,27 @@ def judge_form(name, form, upto, judge):
                                      f"child {who} for size {m} > {n} - {shifts[who]} (declared shifts {shifts})", wit)
             if any(s != 0 for s in shifts):
                 cx.count("reads.calls_with_nonzero_shift")
+    if judge == "count":
+        # the same through the rule's own get_terms (level cache), once interrupted at a random
+        # provider call and asked again: what the cache keeps must still be the truth
+        rng = intuniv.rng_for("C09/cache", name, repr(form.comb_class), repr(form.strategy))
+        at = rng.choice((None, 1, 2, rng.randint(1, 3 * (upto + 1))))
+        try:
+            got_all, interrupted = rulelib.through_the_cache(form, upto, at)
+        except NotImplementedError:
+            cx.count("rules.cache_route_not_implemented")
+            return True
+        cx.count("rules.cache_route_evaluations")
+        if interrupted:
+            cx.count("rules.cache_route_interrupted")
+        for n, terms in enumerate(got_all):
+            want, got = rw.norm(rw.terms(parent, n)), rw.norm(terms)
+            if got != want:
+                how = f"after a counting call interrupted at provider call #{at}" if interrupted else "uninterrupted"
+                cx.violation(f"C09:wrong-terms-through-cache:{name.split('[')[0]}:{type(form.constructor).__name__}"
+                             + (":after-interruption" if interrupted else ""),
+                             f"{name} of {form.strategy!r} on {form.comb_class!r}, get_terms({n}) {how}: {got}, "
+                             f"truth {want}", {"form": name, "n": n, "interrupt_at": at})
     return True
 
 
